@@ -214,3 +214,93 @@ class Cfg:
 
     def reach_strict(self, starts, avoid=(), avoid_edges=()):
         return reach_strict(self.succs, starts, avoid, avoid_edges)
+
+
+class FlagReach:
+    """Reachability that is sensitive to boolean flag locals which are only ever assigned
+    constants (e.g. `embedded`): states are (block, flag values)."""
+
+    def __init__(self, body, flags):
+        self.body = body
+        self.flags = list(flags)
+        self.succs = body.succs()
+
+    @staticmethod
+    def find_flags(body):
+        """bool-typed user locals whose every assignment is a constant."""
+        cand = {}
+        for i, l in enumerate(body.locals):
+            if l["ty"] == "bool" and l["name"]:
+                cand[i] = True
+        for bb, i, s in body.stmts():
+            if s["k"] == "assign" and s["place"]["l"] in cand and not s["place"]["p"]:
+                rv = s["rv"]
+                if not (rv["k"] == "use" and "const" in rv["op"] and rv["op"]["const"].get("int") is not None):
+                    cand[s["place"]["l"]] = False
+        for bb, t in body.calls():
+            if t["dest"]["l"] in cand:
+                cand[t["dest"]["l"]] = False
+        return [l for l, ok in cand.items() if ok]
+
+    def _step(self, bb, vals):
+        """successor states of (bb, vals)"""
+        body = self.body
+        vals = dict(vals)
+        copies = {}
+        for s in body.blocks[bb]["s"]:
+            if s["k"] != "assign" or s["place"]["p"]:
+                continue
+            dst = s["place"]["l"]
+            rv = s["rv"]
+            if dst in self.flags and rv["k"] == "use" and "const" in rv["op"]:
+                vals[dst] = rv["op"]["const"].get("int")
+            elif rv["k"] == "use":
+                p = rv["op"].get("copy") or rv["op"].get("move")
+                if p is not None and not p["p"] and p["l"] in self.flags:
+                    copies[dst] = (p["l"], False)
+                elif p is not None and not p["p"] and p["l"] in copies:
+                    copies[dst] = copies[p["l"]]
+            elif rv["k"] == "unop" and rv["op"] == "Not":
+                p = rv["a"].get("copy") or rv["a"].get("move")
+                if p is not None and not p["p"]:
+                    if p["l"] in self.flags:
+                        copies[dst] = (p["l"], True)
+                    elif p["l"] in copies:
+                        copies[dst] = (copies[p["l"]][0], not copies[p["l"]][1])
+        t = body.blocks[bb]["t"]
+        nxt = self.succs[bb]
+        if t["k"] == "switch":
+            p = t["discr"].get("copy") or t["discr"].get("move")
+            if p is not None and not p["p"]:
+                src = None
+                if p["l"] in self.flags:
+                    src = (p["l"], False)
+                elif p["l"] in copies:
+                    src = copies[p["l"]]
+                if src is not None and vals.get(src[0]) is not None:
+                    v = vals[src[0]]
+                    v = (0 if v else 1) if src[1] else v
+                    hit = [b for val, b in t["targets"] if val == v]
+                    nxt = [hit[0]] if hit else [t["otherwise"]]
+        return [(n, tuple(sorted(vals.items()))) for n in nxt]
+
+    def reach(self, start_bb, init, avoid=(), avoid_edges=()):
+        """States reachable from (start_bb, init flags dict)."""
+        avoid = set(avoid)
+        avoid_edges = set(avoid_edges)
+        st0 = (start_bb, tuple(sorted(init.items())))
+        seen = {st0}
+        work = [st0]
+        while work:
+            bb, vals = work.pop()
+            for n, nv in self._step(bb, vals):
+                if n in avoid or (bb, n) in avoid_edges:
+                    continue
+                s = (n, nv)
+                if s not in seen:
+                    seen.add(s)
+                    work.append(s)
+        return seen
+
+    def blocks(self, states):
+        return {bb for bb, _ in states}
